@@ -8,6 +8,16 @@
 #define CB_ADDRS 1
 #include "cbstubs.h"
 
+static int contains(const char *hay, const char *needle)
+{
+    for (unsigned i = 0; hay[i] != 0; i++) {
+        unsigned j = 0;
+        while (needle[j] != 0 && hay[i + j] == needle[j]) j++;
+        if (needle[j] == 0) return 1;
+    }
+    return needle[0] == 0;
+}
+
 void harness(void)
 {
     eav_t e;
@@ -21,6 +31,30 @@ void harness(void)
               "C08: eav_init allows every class except not-assigned, test and retired");
     VF_ASSERT(eav_errstr(&e) == cb_msg_of(EEAV_NO_ERROR), "C15: a fresh object reports no error");
 
+    /* C15: every code has a non-empty message that names its condition (keyword taken from the code's name) */
+    {
+        static const struct { int code; const char *kw; } want[] = {
+            { EEAV_NO_ERROR, "no error" }, { EEAV_INVALID_RFC, "RFC" }, /* EEAV_IDN_ERROR: the IDN library's own message */ { EEAV_EMAIL_EMPTY, "empty" },
+            { EEAV_LPART_EMPTY, "empty" }, { EEAV_LPART_TOO_LONG, "long" }, { EEAV_LPART_NOT_ASCII, "ascii" }, { EEAV_LPART_SPECIAL, "special" },
+            { EEAV_LPART_CTRL_CHAR, "control" }, { EEAV_LPART_MISPLACED_QUOTE, "quote" }, { EEAV_LPART_UNQUOTED, "quote" },
+            { EEAV_LPART_TOO_MANY_DOTS, "dots" }, { EEAV_LPART_MISPLACED_DOT, "dot" }, { EEAV_LPART_UNQUOTED_FWS, "unquoted" },
+            { EEAV_LPART_INVALID_FOLDING, "folding" }, { EEAV_LPART_INVALID_UTF8, "UTF-8" }, { EEAV_DOMAIN_EMPTY, "empty" },
+            { EEAV_DOMAIN_LABEL_TOO_LONG, "long" }, { EEAV_DOMAIN_MISPLACED_HYPHEN, "hyphen" }, { EEAV_DOMAIN_MISPLACED_DELIMITER, "delimiter" },
+            { EEAV_DOMAIN_INVALID_CHAR, "invalid" }, { EEAV_DOMAIN_TOO_LONG, "long" }, { EEAV_DOMAIN_NUMERIC, "numeric" },
+            { EEAV_DOMAIN_NOT_FQDN, "FQDN" }, { EEAV_IPADDR_INVALID, "ip-addr" }, { EEAV_IPADDR_BRACKET_UNPAIR, "bracket" },
+            { EEAV_TLD_INVALID, "invalid" }, { EEAV_TLD_NOT_ASSIGNED, "not assigned" }, { EEAV_TLD_COUNTRY_CODE, "country" },
+            { EEAV_TLD_GENERIC, "generic" }, { EEAV_TLD_GENERIC_RESTRICTED, "restricted" }, { EEAV_TLD_INFRASTRUCTURE, "infrastructure" },
+            { EEAV_TLD_SPONSORED, "sponsored" }, { EEAV_TLD_TEST, "test" }, { EEAV_TLD_SPECIAL, "special" }, { EEAV_TLD_RETIRED, "retired" } };
+        for (unsigned k = 0; k < sizeof want / sizeof want[0]; k++) {
+            const char *msg = cb_msg_of(want[k].code);
+            VF_ASSERT(msg != NULL && msg[0] != 0, "C15: every error code has a non-empty message");
+            VF_ASSERT(contains(msg, want[k].kw), "C15: the message of a code names the condition of that code");
+            if (want[k].code >= EEAV_TLD_NOT_ASSIGNED)     /* one class per message */
+                for (unsigned j = 0; j < sizeof want / sizeof want[0]; j++)
+                    if (want[j].code >= EEAV_TLD_NOT_ASSIGNED && j != k && want[j].code != EEAV_TLD_GENERIC)
+                        VF_ASSERT(!contains(msg, want[j].kw), "C15: a TLD-class message names its own class only");
+        }
+    }
     bool keep_defaults = nondet_bool();
     int rfc = nondet_int();
     bool tld_check = nondet_bool();
@@ -78,7 +112,7 @@ void harness(void)
 
     const char *m = eav_errstr(&e);
     if (e.errcode == EEAV_IDN_ERROR) {
-        VF_ASSERT(m == cb_idn_message, "C15/C19: an IDN failure carries the IDN library's own message");
+        VF_ASSERT(CB_IS_IDN_MESSAGE(m), "C15/C19: an IDN failure carries the IDN library's own message");
         VF_ASSERT(cb_strerror_calls >= 1 && cb_strerror_arg == e.result->idn_rc, "C15/C19: ... for the IDN code of this result");
         VF_COVER(1, "idn-error");
     } else {
